@@ -28,6 +28,14 @@ TRUSTED = ["Coq 8.16.1 kernel; vm_compute for the executable instance of the obj
            "the ast fact extractor (abstract walk of the WMM methods) -- validated on every run by the differential run of the model",
            "hand-written state-machine model coq/model/C15_wmm_object.v -- tied by correspondence only",
            "stdlib real-number axioms; real arithmetic stands for binary64 (measured by correspondence)"]
+PARTIAL = ("on the pinned tree three clauses are refuted inside the model and recorded as known findings with fix proposals (date=None "
+           "re-scales; constructor silent at latitude/longitude 0; constructor answers for the day-rounded date); the theorems for them are "
+           "conditional on the regenerated facts (+ `_partial` forms, + unconditional `C15_fixed_*.v` once the facts hold). The harmonic "
+           "synthesis itself is abstract in the object model (C14's subject); `finite at the poles` and `+180 = -180 for the full elements` "
+           "are explored by the search oracle, proved only for the longitude harmonics; the rotation statements X,Y,Z <- X',Y',Z' are tied "
+           "by regeneration only (their inputs are not public)")
+ASSUMPTIONS = ["datetime.date.today() is an input of the model (`w_today`); the wall clock is not controlled except in the default_date oracle",
+               "the ast walk recognises reloads as fresh assignments of self.c and self.cd, scalings as in-place updates that read them"]
 WMM_REL = os.path.join('ahrs', 'utils', 'wmm.py')
 
 
@@ -967,6 +975,10 @@ def o_frames(inp):
     exp = [a[1], a[0], -a[2], a[3], a[4]]
     if max(abs(x - y) for x, y in zip(b[:5], exp)) > TOL_NT:
         return {'tag': f'{ent}/ENU-not-swapped-NED', 'observed': b[:5], 'expected': exp}
+    for fr, ref in (('enu', b), ('Ned', a)):          # the frame name is accepted in any case
+        c = _query(inp, frame=fr)
+        if c is None or not same(c, ref):
+            return {'tag': f'{ent}/frame-name-case', 'observed': c, 'expected': ref}
     return None
 
 
